@@ -867,7 +867,9 @@ def counted_loop_nodes(fn, node, min_trips=1):
         if id(x) in seen or x is node:
             continue
         seen.add(id(x))
-        if x.kind in ("exit", "raise", "noret"):
+        if x.kind in ("raise", "noret"):
+            continue            # an abnormal way out: not a path on which the function returns
+        if x.kind == "exit":
             return None
         body.append(x)
         for y, lab in x.succ:
